@@ -536,6 +536,39 @@ def rule_acc(ctx):
     return n
 
 
+def rule_truth(ctx):
+    """the converter and the attribute classes test attribute OBJECTS for presence by their truth (`if x.context_info:`).
+    An attribute class that defines its own truth (__bool__ / __nonzero__ / __len__) makes presence depend on content: its
+    truth is executed on an instance whose every constructor argument is a set-but-falsy value (0): it must be true."""
+    from ..absint import Interp, _Raise, NeedAtom, Budget, DomainGrew
+    repo = ctx.repo
+    adir = "yowsup/layers/protocol_messages/protocolentities/attributes/"
+    n = 0
+    for m in sorted(repo.modules.values(), key=lambda m_: m_.relpath):
+        if not m.relpath.startswith(adir) or m.relpath.endswith("converter.py"):
+            continue
+        for c in m.classes.values():
+            n += 1
+            own = [nm for nm in ("__bool__", "__nonzero__", "__len__") if repo.find_method(c, nm)[1] is not None or any(nm in k.consts for k in repo.mro(c))]
+            w = where(m.relpath, c.name, None)
+            if not own:
+                ctx.hold("C10.has", w, "%s objects are true whatever they hold" % c.name, "no __bool__ / __len__: presence tests by truth see the object")
+                continue
+            it = Interp(repo, {}, {})
+            k, init = repo.find_method(c, "__init__")
+            nargs = len(init.args.args) - 1 if init is not None else 0
+            try:
+                o = it.construct(c, [("c", 0)] * nargs, {}, {"@module": c.module, "@owner": None}, 0, None)
+                t = it.truth(o, c.name)
+            except (_Raise, NeedAtom, Budget, DomainGrew) as x:
+                ctx.undecided("C10.has", w, "%s defines %s" % (c.name, own[0]), "its truth could not be executed: %s" % (getattr(x, "text", x),))
+                continue
+            ctx.check("C10.has", bool(t), w, "%s defines %s" % (c.name, own[0]),
+                      "an object whose fields are all set to falsy values (0 / False / '') is itself falsy: the converter's presence tests (`if attributes.x:`) then drop it, and every field the sender set is lost",
+                      "true also when every field holds a falsy value")
+    ctx.units["C10.attribute_classes"] = n
+
+
 def rule_converter(ctx, cv=None):
     """the converter judged by abstract execution (c10_rt); the structural reading (rule_bij_desc_has / rule_top) only for
     the pairs the execution did not decide clean, where it names the statement at fault"""
@@ -565,6 +598,7 @@ def run(ctx):
     cv = Conv(ctx)
     ctx.units["C10.descriptors"] = len(cv.descs)
     rule_converter(ctx, cv)
+    ctx.guarded("C10.has", rule_truth, ctx)
     ctx.guarded("C10.ser", rule_ser, ctx)
     ctx.guarded("C10.ser", rule_forward, ctx)
     ctx.guarded("C10.acc", rule_acc, ctx)
